@@ -25,9 +25,16 @@ def to_scenario(sid, log, q, b, rng):
         r = rng.random()
         if r < 0.08:
             steps.append({"k": "noop"})
-        elif r < 0.14:
-            q2 = rng.choice([1, 2, 4, 8])
-            steps.append({"k": "resize", "qps": q2, "burst": q2 * rng.choice([1, 2])})
+        elif r < 0.16:
+            # a resize: new rate and burst, the burst alone, the rate alone - or BACK to the configuration before the last one (A -> B -> A)
+            cfgs = [(s_["qps"], s_["burst"]) for s_ in steps if s_["k"] == "resize"]
+            cur = cfgs[-1] if cfgs else (q, b)
+            if len(cfgs) >= 1 and rng.random() < 0.4:
+                nq, nb = cfgs[-2] if len(cfgs) >= 2 else (q, b)
+            else:
+                q2 = rng.choice([1, 2, 4, 8])
+                nq, nb = rng.choice([(q2, q2 * rng.choice([1, 2])), (cur[0], cur[1] * 2), (cur[0], max(1, cur[1] // 2)), (cur[0] * 2, cur[1])])
+            steps.append({"k": "resize", "qps": nq, "burst": nb})
     return {"id": sid, "qps": q, "burst": b, "steps": steps}
 
 
